@@ -33,6 +33,9 @@ type State struct {
 	Events map[string]bool
 	Ret    []*Term
 	Trail  []string
+	TrailL []Lit
+	// Sticky: literals that were facts on this path before a write invalidated them (admission facts)
+	Sticky map[string]Lit
 	// RetConst: "true","false","nil","" classification of first result
 }
 
@@ -52,6 +55,13 @@ func (s *State) clone() *State {
 		n.Events[k] = v
 	}
 	n.Trail = append([]string{}, s.Trail...)
+	n.TrailL = append([]Lit{}, s.TrailL...)
+	if s.Sticky != nil {
+		n.Sticky = make(map[string]Lit, len(s.Sticky))
+		for k, v := range s.Sticky {
+			n.Sticky[k] = v
+		}
+	}
 	return n
 }
 
@@ -101,6 +111,7 @@ type Snap struct {
 	Val    *Term // written value (writes)
 	Idx    *Term // index (slot stores / index sites)
 	Trail  string
+	Sticky map[string]Lit
 }
 
 type Site struct {
@@ -878,6 +889,17 @@ func applyKill(st *State, loc string, kind int, idx *Term) {
 	isSlot := func(a *Atom) bool {
 		return a.Op == "nn" && a.A.K == KIndex && a.A.Args[0].K == KField && a.A.Args[0].Name == loc && !a.A.Args[1].readsLoc(loc)
 	}
+	if loc == "ctx.blockProcessed" {
+		if v, ok := st.F.m["ctx.blockProcessed"]; ok {
+			if st.Sticky == nil {
+				st.Sticky = map[string]Lit{}
+			}
+			l := Lit{st.F.atoms["ctx.blockProcessed"], v}
+			if _, had := st.Sticky["ctx.blockProcessed"]; !had {
+				st.Sticky["ctx.blockProcessed"] = l
+			}
+		}
+	}
 	st.F.dropIf(func(a *Atom, val bool) bool {
 		if !a.readsLoc(loc) {
 			return false
@@ -1050,11 +1072,13 @@ func split(st *State, lit Lit) (ts, fs []*State) {
 	t := st.clone()
 	if t.F.add(lit) {
 		t.Trail = append(t.Trail, lit.String())
+		t.TrailL = append(t.TrailL, lit)
 		ts = []*State{t}
 	}
 	f := st
 	if f.F.add(lit.Neg()) {
 		f.Trail = append(f.Trail, lit.Neg().String())
+		f.TrailL = append(f.TrailL, lit.Neg())
 		fs = []*State{f}
 	}
 	return
